@@ -208,6 +208,7 @@ def run(ctx):
             ok = not early and not pushes
             why = "length test at %s; returns before it: %d; values produced in the same statement: %d" % (H.loc(good), len(early), len(pushes))
     ctx.inst("C11.R4", "list-list#length-check-first", ok, why, H.loc(C.arm_ll["body"]))
+    no_answer_before_dispatch(ctx, "C11.R4", C)
     # nothing may divert list-list operands before that arm: earlier arms of the (lhs, rhs) match must be guarded on the operator being non-broadcasting
     for g in C.guard_arms:
         gt = S.norm(g["guard"], S.Env())
@@ -269,3 +270,19 @@ def unary_rule(ctx, rid, core):
                 ctx.inst(rid, "UnaryOp::%s" % v, vd, "computes %s; the statement gives %s" % (S.show(t)[:200], S.show(want[v])), H.loc(a["body"]))
     for v in sorted(set(want) - seen):
         ctx.inst(rid, "UnaryOp::%s" % v, None, "no arm for this operator was recognised", None)
+
+
+def no_answer_before_dispatch(ctx, rid, C):
+    # in the list-scalar copy nothing answers before the operator is dispatched (an "empty list" shortcut would answer for via / into / where too)
+    try:
+        inner_ls = C.inner_op_match(C.arm_ls["body"])
+        pre_rets = []
+        inner_ids = {id(x) for x in H.walk(inner_ls)}
+        for x in H.walk(C.arm_ls["body"]):
+            if H.kind(x) == "Ret" and id(x) not in inner_ids and x.get("e") is not None:
+                t_ = S.norm(x["e"], S.Env())
+                if not (t_[0] == "ctor" and t_[1] == "Err"):
+                    pre_rets.append(H.loc(x))
+        ctx.inst(rid, "list-scalar#no-answer-before-dispatch", not pre_rets, "values returned before the `match op` of the list-scalar copy: %s" % (pre_rets or "none"), H.loc(C.arm_ls["body"]))
+    except CheckerError:
+        ctx.inst(rid, "list-scalar#no-answer-before-dispatch", None, "no `match op` found in the list-scalar copy", None)
